@@ -56,6 +56,8 @@ def collect(run, rng, nworlds, nqueries, mode, thresholds_fn, quality, nsteps=(4
                     aq = world.rand_query(rng, rng.randrange(0, depth + 1), scored_only=scored_only, ops=ops)
                     if spans and qi % 5 == 4:
                         aq = world.rand_span_query(rng, rng.randrange(1, 3))
+                    if mode == "rank" and aq["op"] == "or" and len(aq["kids"]) >= 2 and qi % 3 == 0:
+                        aq["scale"] = rng.choice([0.5, 0.9, 0.99])       # coordination bonus (CoordMatcher)
                     q = world.to_query(aq)
                     targets = [("top", s, -1)]
                     if not s.is_atomic():
